@@ -7,13 +7,18 @@ dumps, independent of the Coq model.  Sanitizer replay of copy-heavy sequences (
 import os, math, json, itertools
 import vlib
 from props import c16_oracle as orc
+from props import ext
+
+# arc segments: model DrawingArc.v, theorems Properties_C16_arc.v, harness h_drawing_arc.cpp (props/xarc.py)
+EXTENSIONS = ["xarc"]
+EXTRA_PROPERTY_FILES = ["C16_arc"]
 
 LEVEL = "proof"
 COQ_MODULES = ["Drawing"]
 ASSUMPTIONS = [
-    "the model covers nodes, straight segments and block labels; arc segments (addArcSegment, createRadius, the arc "
-    "branches of addNode/addSegment/enforcePSLG/copy/move) are not modelled: they are exercised on the implementation "
-    "only and checked by the exact-rational oracle",
+    "Drawing.v covers nodes, straight segments and block labels; arc segments (addArcSegment, createRadius, the arc "
+    "branches of addNode/addSegment/enforcePSLG/copy/move/delete) are modelled by the extension DrawingArc.v, whose "
+    "arc-free fragment is proved equal to Drawing.v (C16_arc_free_fragment_is_Drawing)",
     "the combinatorial theorems hold for every instantiation of the geometric oracles (record Geo); the tie of the "
     "oracles to the C++ formulas is the binary64 correspondence run here; rounding error between the binary64 and the "
     "real reading is not bounded",
@@ -693,6 +698,7 @@ def correspond(ctx):
     if "exhaustive" in stats:
         cov["exhaustive"] = True
         cov["exhaustive_space"] = stats["exhaustive"]
+    dis += ext.run(ctx, EXTENSIONS)
     return dis
 
 
